@@ -28,7 +28,7 @@ type TLCOpt struct {
 	Cfg      string            // full text of the .cfg to use
 	Workers  int               // default 16
 	Extra    []string          // e.g. -simulate num=100 -depth 20
-	Timeout  time.Duration     // default 20 min
+	Timeout  time.Duration     // default 45 min
 	Files    map[string]string // extra files to place next to the spec (e.g. trace.ndjson)
 	OnVec    func(raw []byte)  // called for every emitted vector (serially)
 	Heap     string            // e.g. "8g"
@@ -99,7 +99,7 @@ func (c *Ctx) TLC(opt TLCOpt) *TLCResult {
 	}
 	timeout := opt.Timeout
 	if timeout == 0 {
-		timeout = 20 * time.Minute
+		timeout = 45 * time.Minute
 	}
 	heap := opt.Heap
 	if heap == "" {
